@@ -126,6 +126,11 @@ def _set_meta_type(out_state, name, type_spec, M=None, K=None):
     ensures('wf', wf_state(out_state))
     ensures('entries_kept', implies(K != '!!meta', dhas(out_state, K) == old(dhas(out_state, K))
                                     and dget(out_state, K) is old(dget(out_state, K))))
+    ensures('meta_origin', (old(dhas(out_state, '!!meta')) and dget(out_state, '!!meta') is old(dget(out_state, '!!meta')))
+            or (not old(dhas(out_state, '!!meta')) and fresh(dget(out_state, '!!meta'))))
+    ensures('types_origin', (old(dhas(out_state, '!!meta') and dhas(dget(out_state, '!!meta'), 'types'))
+                             and dget(dget(out_state, '!!meta'), 'types') is old(dget(dget(out_state, '!!meta'), 'types')))
+            or (not old(dhas(out_state, '!!meta') and dhas(dget(out_state, '!!meta'), 'types')) and fresh(dget(dget(out_state, '!!meta'), 'types'))))
     ensures('entries_kept_m', implies(M != '!!meta', dhas(out_state, M) == old(dhas(out_state, M))
                                       and dget(out_state, M) is old(dget(out_state, M))))
     ensures('other_types_kept', implies(M != name, has_meta_type(out_state, M) == old(has_meta_type(out_state, M))
@@ -418,6 +423,14 @@ def save_members(self, members, out_state, M=None, K=None):
                   contents(dget(dget(out_state, '!!meta'), 'types'), when=dhas(out_state, '!!meta') and dhas(dget(out_state, '!!meta'), 'types')),
                   ghost('LASTSAVED'))
     loop_invariant(0, 'wf', wf_state(out_state))
+    # the metadata dictionaries are the ones that were there, or were made by this very call
+    loop_invariant(0, 'meta_origin', implies(dhas(out_state, '!!meta'),
+                                             (old(dhas(out_state, '!!meta')) and dget(out_state, '!!meta') is old(dget(out_state, '!!meta')))
+                                             or fresh(dget(out_state, '!!meta'))))
+    loop_invariant(0, 'types_origin', implies(dhas(out_state, '!!meta') and dhas(dget(out_state, '!!meta'), 'types'),
+                                              (old(dhas(out_state, '!!meta') and dhas(dget(out_state, '!!meta'), 'types'))
+                                               and dget(dget(out_state, '!!meta'), 'types') is old(dget(dget(out_state, '!!meta'), 'types')))
+                                              or fresh(dget(dget(out_state, '!!meta'), 'types'))))
     loop_invariant(0, 'recorded_so_far', implies(M in _seen, saved_member(self, out_state, M, v0)))
     loop_invariant(0, 'others_kept', implies(not dhas(members, K) and K != '!!meta', dhas(out_state, K) == old(dhas(out_state, K))
                                              and dget(out_state, K) is old(dget(out_state, K))))
